@@ -2708,7 +2708,8 @@ func (v *Varchar) IsNull() bool {
 }
 
 func (v *Varchar) String() string {
-	return fmt.Sprintf("'%s'", v.val)
+	// a quote inside the value is doubled: the text parses back to the same value
+	return fmt.Sprintf("'%s'", strings.ReplaceAll(v.val, "'", "''"))
 }
 
 func (v *Varchar) inferType(cols map[string]ColDescriptor, params map[string]SQLValueType, implicitTable string) (SQLValueType, error) {
